@@ -69,6 +69,11 @@ func runC19(r *vf.Run) {
 		wf{"r1001", func() *gen.CSVFile { return gen.CSVWithValues(1001, []int{1001, 2, 500}) }},
 		wf{"r2001", func() *gen.CSVFile { return gen.CSVWithValues(2001, []int{1500, 7}) }},
 		wf{"r20001-verbose", func() *gen.CSVFile { return gen.CSVWithValues(20001, []int{9000, 7, 2}) }},
+		wf{"r70000-constant-column", func() *gen.CSVFile {
+			// more than 65536 records with a constant and a three-valued column: single values on more rows than one bitmap
+			// container or one 16-bit counter holds
+			return gen.CSVWithValues(70000, []int{1, 3, 500})
+		}},
 		wf{"wide-40-columns", func() *gen.CSVFile {
 			cards := make([]int, 40)
 			for i := range cards {
